@@ -13,6 +13,8 @@ package c04
 // subject); in POP mode additionally pop == [sk]*H_pop(pk).
 
 import (
+	"github.com/bronlabs/bron-crypto/pkg/mpc/sharing/accessstructures/cnf"
+	"github.com/bronlabs/bron-crypto/pkg/mpc/sharing/accessstructures"
 	"bytes"
 	"fmt"
 	"math/big"
@@ -317,6 +319,7 @@ func mkBoldyreva[
 	sigGroupName string,
 	refK *curve.WCurve[KE], refS *curve.WCurve[SE],
 	keyToRef func(PK) (curve.WPoint[KE], error), sigToRef func(SG) (curve.WPoint[SE], error),
+	acName string, mkAC func() accessstructures.Monotone,
 ) bolSection {
 	type (
 		sigT  = *bls.Signature[SG, SGFE, PK, PKFE, E, S]
@@ -342,6 +345,9 @@ func mkBoldyreva[
 		err      error
 	}
 	section := "boldyreva/" + v.Name
+	if acName != "" {
+		section += "/" + acName
+	}
 	q := conv.BLS12381R
 
 	var (
@@ -352,8 +358,8 @@ func mkBoldyreva[
 		keysOnce.Do(func() {
 			km := &keyMat{}
 			keys = km
-			ac := proto.Threshold(2, bolIDs...)
-			bs, err := proto.C01BaseShards[PK, S](proto.C01Dealer, keyGroup, ac, bolIDs, engine.Seed(), "c04/boldyreva/"+v.Name)
+			ac := mkAC()
+			bs, err := proto.C01BaseShards[PK, S](proto.C01Dealer, keyGroup, ac, bolIDs, engine.Seed(), "c04/boldyreva/"+v.Name+acName)
 			if err != nil {
 				km.err = fmt.Errorf("trusted dealer: %w", err)
 				return
@@ -748,9 +754,20 @@ func boldyrevaSections() {
 	)
 	fam := proto.C01BLSFamily()
 	a1, a2 := libcurve.BLS12381G1(), libcurve.BLS12381G2()
+	t23 := func() accessstructures.Monotone { return proto.Threshold(2, bolIDs...) }
+	cnf23 := func() accessstructures.Monotone {
+		ac, err := cnf.NewCNFAccessStructure(proto.Set(1), proto.Set(2), proto.Set(3))
+		if err != nil {
+			panic(engine.HarnessError{Msg: "cnf.NewCNFAccessStructure: " + err.Error()})
+		}
+		return ac
+	}
 	secs := []bolSection{
-		mkBoldyreva[g1, f1, g2, f2, gt, sc, *big.Int, curve.Fp2](proto.C01BoldyrevaShort(), fam.SourceSubGroup(), fam.TwistedSubGroup(), "G2", a1.Ref, a2.Ref, a1.TryToRef, a2.TryToRef),
-		mkBoldyreva[g2, f2, g1, f1, gt, sc, curve.Fp2, *big.Int](proto.C01BoldyrevaLong(), fam.TwistedSubGroup(), fam.SourceSubGroup(), "G1", a2.Ref, a1.Ref, a2.TryToRef, a1.TryToRef),
+		mkBoldyreva[g1, f1, g2, f2, gt, sc, *big.Int, curve.Fp2](proto.C01BoldyrevaShort(), fam.SourceSubGroup(), fam.TwistedSubGroup(), "G2", a1.Ref, a2.Ref, a1.TryToRef, a2.TryToRef, "", t23),
+		mkBoldyreva[g2, f2, g1, f1, gt, sc, curve.Fp2, *big.Int](proto.C01BoldyrevaLong(), fam.TwistedSubGroup(), fam.SourceSubGroup(), "G1", a2.Ref, a1.Ref, a2.TryToRef, a1.TryToRef, "", t23),
+		// the same 2-of-3 policy written as a CNF (maximal unqualified sets {1},{2},{3}): every holder owns TWO rows of the
+		// span programme, so every partial signature has two components
+		mkBoldyreva[g1, f1, g2, f2, gt, sc, *big.Int, curve.Fp2](proto.C01BoldyrevaShort(), fam.SourceSubGroup(), fam.TwistedSubGroup(), "G2", a1.Ref, a2.Ref, a1.TryToRef, a2.TryToRef, "cnf-two-rows", cnf23),
 	}
 	for _, s := range secs {
 		sec := engine.Explore(s.body, engine.Opts{Name: s.name, MaxFails: 100000, Budget: engine.Budget(2*time.Minute, 10*time.Minute)})
